@@ -470,7 +470,27 @@ func runC03more(c *Ctx) {
 				good := true
 				var w []ssa.Instruction
 				tested := false
-				for _, ref := range *errV.Referrers() {
+				// the error itself and the phis it flows into (err declared before an if/else whose
+				// other arm leaves it nil)
+				var errRefs []ssa.Instruction
+				{
+					seenV := map[ssa.Value]bool{}
+					var collect func(v ssa.Value, depth int)
+					collect = func(v ssa.Value, depth int) {
+						if seenV[v] || depth > 3 {
+							return
+						}
+						seenV[v] = true
+						for _, ref := range *v.Referrers() {
+							errRefs = append(errRefs, ref)
+							if ph, isPhi := ref.(*ssa.Phi); isPhi {
+								collect(ph, depth+1)
+							}
+						}
+					}
+					collect(errV, 0)
+				}
+				for _, ref := range errRefs {
 					switch r := ref.(type) {
 					case *ssa.BinOp:
 						if (r.Op == token.NEQ || r.Op == token.EQL) && (IsNilConst(r.X) || IsNilConst(r.Y)) {
